@@ -58,14 +58,14 @@ contract(Q + 'piecewise_variables', P,
                   'first_variable_kind': _KIND.replace('RES', 'result'),
                   # value of every variable == documented closed form (closed interval, open lower end, open upper end)
                   'value_of_each_variable': f"forall(lambda q: c05c_val(result[q]) == {pwv()}, 0, len(thresholds) - 1)"},
-         # the three ways of building the first variable are kept apart (no join): each path runs the loop, the core numbers
-         # the loop executions 1, 2, 3
+         # the ways of building the first variable (x given by name or as a node) are kept apart (no join): each path runs the loop, the core numbers
+         # the loop executions 1, 2, ...
          invariants={k: {'clauses': {
              'count': "len(results) == 1 + _k",
              'own_list': "results is not thresholds and c17_allocated(results)",
              'first_kept': _KIND.replace('RES', 'results'),
              'thresholds_kept': "len(thresholds) == eye and " + _SAME_THRESHOLDS,
-             'values': f"forall(lambda q: c05c_val(results[q]) == {pwv()}, 0, 1 + _k)"}} for k in (1, 2, 3)},
+             'values': f"forall(lambda q: c05c_val(results[q]) == {pwv()}, 0, 1 + _k)"}} for k in range(1, 9)},
          replay=_replay_code('c17_piecewise.py', 'piecewise_variables:each-variable'))
 
 # ------------------------------------------------------------------------------------------------ piecewise_formula
